@@ -257,7 +257,22 @@ class ArraySchemaBackend(PandasSchemaBackend):
                 with ps.option_context("compute.ops_on_diff_frames", True):
                     failed = check_obj[duplicates]
             else:
-                if not check_obj.is_unique:
+                try:
+                    is_unique = check_obj.is_unique
+                except TypeError as exc:
+                    # unhashable values (e.g. lists) cannot be compared
+                    msg = (
+                        f"cannot determine whether series '{check_obj.name}' "
+                        f"contains duplicate values: {exc}"
+                    )
+                    return CoreCheckResult(
+                        passed=False,
+                        check="field_uniqueness",
+                        reason_code=SchemaErrorReason.CHECK_ERROR,
+                        message=msg,
+                        failure_cases=msg,
+                    )
+                if not is_unique:
                     duplicates = check_obj.duplicated(keep=keep_argument)  # type: ignore
                     failed = check_obj[duplicates]
 
